@@ -57,7 +57,7 @@ def check(ctx, world):
                     ok = False
                     why = "key is not H(cat(...)): " + show(v, maxdepth=4)
                     if is_app(v, "H") and is_app(v.args[0], "cat"):
-                        parts = v.args[0].args
+                        parts = [session.canon_reencode(t) for t in v.args[0].args[:-1]] + [v.args[0].args[-1]]
                         if cname == "SPAKE2_Symmetric":
                             ids = cm.syms.get("idSymmetric")
                             exp = (H(pw), H(ids), mk_app("min", (own, peer)), mk_app("max", (own, peer)))
